@@ -6,7 +6,8 @@
 From BS Require Import Model.Base Model.Regex Model.Num Model.ExprParser Model.Script Model.ScriptX Model.Lower
   Gen.Unicode Proofs.ScriptFacts Proofs.C06 Proofs.C10 Proofs.C10ws Proofs.C10wsExpr Proofs.C10wsIndent
   Proofs.ExprFuel Proofs.C10wsFull Proofs.RegexShiftG Proofs.C10wsIndent2 Proofs.C10wsReturn
-  Proofs.C10tokLex Proofs.C10tokSpaced Proofs.RegexTrail Proofs.C10tokTrail Proofs.RegexTrail2.
+  Proofs.C10tokLex Proofs.C10tokSpaced Proofs.RegexTrail Proofs.C10tokTrail Proofs.RegexTrail2
+  Proofs.RegexTrail3 Proofs.C10stmtTrail Proofs.C10parseNoeq Proofs.C10classifyTrail Proofs.C10stmtGaps Proofs.C10stmtGaps2 Proofs.C10stmtGaps3.
 
 (* ---- LF versus CRLF: both texts have the same lines ---- *)
 Theorem C10_crlf : forall lines, lines <> [] -> Forall no_lf lines -> Forall (fun l => ends_cr l = false) lines ->
@@ -243,8 +244,8 @@ Qed.
    Proofs/RegexTrail.v m_trail with "equal answers" weakened to "same captures"; ev_eol_tail: `\s*$` succeeds exactly on white
    subjects), for any run of `\s` characters.  PARTIAL with respect to "classify n (line ++ ws) = classify n line": the three
    other statement regexes are not covered — `(?P<expr>.+)$` (assignment) and `\S.*` (return expr) absorb the run, the name
-   group of jump is followed directly by `\s*$` — and assignment is tried FIRST by classify, so no classify theorem follows
-   yet (see C10_ws_tokens_partial). ---- *)
+   group of jump is followed directly by `\s*$`; those three are done in round 6 (C10_ws_assignment_regex_trailing,
+   C10_ws_return_regex_trailing, C10_ws_jump_regex_trailing) and the classify theorem is C10_ws_trailing below. ---- *)
 Theorem C10_ws_statement_regex_trailing_partial : forall R line ws, stmt_tail_re R -> white ws ->
   match rxm R line with
   | MNo => rxm R (line ++ ws) = MNo
@@ -268,25 +269,221 @@ Proof.
   eexists. split; vm_compute; reflexivity.
 Qed.
 
+(* ---- TRAILING white space of a STATEMENT line, at the level of classify (round 6, Proofs/RegexTrail3.v, C10stmtTrail.v,
+   C10parseNoeq.v, C10classifyTrail.v): EVERY statement kind — assignment, function begin / end, if / elif / else / endif,
+   while / endwhile, for / endfor, break, continue, label, jump, jumpif, return (bare and with an expression), include (both
+   forms), expression statement.  A line that classifies successfully as k is classified as the SAME k (same names, same
+   expression trees) with any run of `\s` characters appended; only an elif whose condition does not parse is left out
+   (indent_kind_all: that kind carries the parser's error record, which quotes the line).  Premise: no LF in the line and in
+   the run (`.` does not read LF: `x = 1` ++ LF ++ ` ` is not an assignment; the lines parse_script produces never contain LF,
+   C10_lines_have_no_lf).
+   How: for the fifteen regexes `X \s*$` and for jump the ENGINE answers with the same captures; for assignment
+   `(?P<expr>.+)$` and return `\S.*` the expr group absorbs the run (its text is the old text ++ ws: C10_ws_assignment_regex_trailing,
+   C10_ws_return_regex_trailing) and parse_expression ignores a trailing run (C10_ws_expression_trailing).  `x =` is NOT an
+   assignment while `x =  ` is one: "the assignment regex does not match" is preserved only for lines that do not end with
+   `=`, and a line that classifies successfully never ends with `=` (C10_ws_classified_not_eq_end: the other regexes end with
+   another character, and an expression that ends with `=` never parses: C10_expression_never_ends_eq). ---- *)
+Theorem C10_ws_trailing : forall n line ws k, white ws -> ~ In 10%N ws -> ~ In 10%N line -> indent_kind_all k = true ->
+  Lower.classify n line = ROk k -> Lower.classify n (line ++ ws) = ROk k.
+Proof. exact classify_trail_nolf. Qed.
+Print Assumptions C10_ws_trailing.
+
+(* indentation and trailing run together *)
+Theorem C10_ws_padding : forall n ws1 line ws2 k, white ws1 -> white ws2 -> ~ In 10%N ws1 -> ~ In 10%N ws2 -> ~ In 10%N line ->
+  indent_kind_all k = true -> Lower.classify n line = ROk k -> Lower.classify n (ws1 ++ line ++ ws2) = ROk k.
+Proof. exact classify_padded. Qed.
+Print Assumptions C10_ws_padding.
+
+Theorem C10_ws_classified_not_eq_end : forall n line k, ~ In 10%N line -> Lower.classify n line = ROk k ->
+  forall pre, line <> pre ++ [61%N].
+Proof. exact classify_ok_noeq_nolf. Qed.
+Print Assumptions C10_ws_classified_not_eq_end.
+
+Theorem C10_expression_never_ends_eq : forall t e, parse_expression (t ++ [61%N]) <> EOk e.
+Proof. intros t e H. exact (parse_ok_noeq _ _ H t eq_refl). Qed.
+Print Assumptions C10_expression_never_ends_eq.
+
+(* the engine-level statements behind it.  RelA line ws a b: both MNo, or both a match whose capture tables differ only in
+   the expr group 2, which ends at the end of the subject in both, and either its text on line ++ ws is its text on line
+   followed by ws, or both texts are white space (`x =  `: the group backs off to the last blank).  RelR line ws a b: both
+   MNo, or both a match with either the same capture table (bare return) or groups 1 (`return`) and 2 (expr) that end at the
+   end of the subject in both and start at the same place.  sim: both MNo or both a match with the same capture table. *)
+Theorem C10_ws_assignment_regex_trailing : forall line ws, white ws -> nolf ws -> nolf line -> noeq_end line ->
+  RelA line ws (rxm Gen.Regexes.R_SCRIPT_ASSIGNMENT (line ++ ws)) (rxm Gen.Regexes.R_SCRIPT_ASSIGNMENT line).
+Proof. exact assign_trail. Qed.
+Print Assumptions C10_ws_assignment_regex_trailing.
+Theorem C10_ws_return_regex_trailing : forall line ws, white ws -> nolf ws -> nolf line ->
+  RelR line ws (rxm Gen.Regexes.R_SCRIPT_RETURN (line ++ ws)) (rxm Gen.Regexes.R_SCRIPT_RETURN line).
+Proof. exact return_trail. Qed.
+Print Assumptions C10_ws_return_regex_trailing.
+Theorem C10_ws_jump_regex_trailing : forall line ws, white ws ->
+  sim (rxm Gen.Regexes.R_SCRIPT_JUMP (line ++ ws)) (rxm Gen.Regexes.R_SCRIPT_JUMP line).
+Proof. exact jump_trail. Qed.
+Print Assumptions C10_ws_jump_regex_trailing.
+
+(* non-vacuity: one line of every kind with the run blank, tab, blank appended; and the two counterexamples that shape the
+   premises (`x =` / `x =  `, and an LF in the run) *)
+Example C10_ex_ws_trailing :
+  white (U " \000009 ") /\ ~ In 10%N (U " \000009 ") /\
+  (forall l, In l [U "x = fn(1) + 2"; U "async function f(a, b...):"; U "endfunction"; U "if a < 1:"; U "elif b:"; U "else:";
+                   U "endif"; U "while i < 3 :"; U "endwhile"; U "for v, i in arr:"; U "endfor"; U "break"; U "continue";
+                   U "top:"; U "jump top"; U "jumpif (x > 1) top"; U "return"; U "return x + 1"; U "include 'a.bare'";
+                   U "include <b.bare>"; U "fn(x, 'y')"] ->
+     ~ In 10%N l /\ exists k, indent_kind_all k = true /\ Lower.classify 3 l = ROk k /\ Lower.classify 3 (l ++ U " \000009 ") = ROk k) /\
+  (exists e, Lower.classify 1 (U "x =") = RErr e) /\ (exists k, Lower.classify 1 (U "x =  ") = RErr k) /\
+  Lower.classify 1 (U "x =") <> Lower.classify 1 (U "x =  ") /\
+  (exists k, Lower.classify 1 (U "x = 1") = ROk k /\ Lower.classify 1 (U "x = 1\00000a ") <> ROk k).
+Proof.
+  split; [intros c I; vm_compute in I; repeat (destruct I as [<-|I]; [reflexivity|]); contradiction|].
+  split; [intros I; vm_compute in I; repeat (destruct I as [I|I]; [discriminate I|]); contradiction|].
+  split.
+  { intros l I. cbn [In] in I.
+    repeat (destruct I as [<-|I];
+      [split; [intros J; vm_compute in J; repeat (destruct J as [J|J]; [discriminate J|]); contradiction|];
+       eexists; split; [|split; vm_compute; reflexivity]; reflexivity|]).
+    contradiction. }
+  split; [eexists; vm_compute; reflexivity|]. split; [eexists; vm_compute; reflexivity|].
+  split; [vm_compute; discriminate|].
+  eexists. split; [vm_compute; reflexivity | vm_compute; discriminate].
+Qed.
+
+(* ---- INNER gaps of a statement line (round 6, Proofs/C10stmtGaps.v, C10stmtGaps2.v, C10stmtGaps3.v): the white runs at the
+   places where the statement regex has `\s*` / `\s+`.  PARTIAL: the kinds assignment, if, elif, while, return <expr>, jump,
+   jumpif, include <url> (plus, from before, `else :` C10_ws_else_gap and the keyword-only lines).  NOT covered: function begin,
+   for, label, include 'url' (oracle only).  For these eight kinds the classification is computed from the PIECES of the line, for ALL white runs:
+     w1 name w2 = T        ->  KAssign name e           w1 if w2 T : w4            ->  KIf e
+     w1 elif w2 T : w4     ->  KElif (ROk e)            w1 while w2 T : w4         ->  KWhile e
+     w1 return w2 T        ->  KReturn (Some e)         w1 jump w2 name w4         ->  KJump name None
+     w1 jumpif g ( T ) w2 name w4  ->  KJump name (Some e)      w1 include w2 <url> w4     ->  KInclude url true
+   (w1 w2 w4 g arbitrary runs of `\s` characters, w2 non-empty where the regex has `\s+`; name an identifier; T an LF-free text
+   with parse_expression T = EOk e, starting with a non-space character after if / elif / while / return — in the assignment T
+   includes the run after `=`, in jumpif the runs inside the parentheses; the run in front of the colon belongs to T: the greedy
+   group `(.+)` takes it and the parser ignores it).
+   stmt_spaced2 k l1 l2 relates two such layouts of the same pieces whose expression texts are related by `spaced` (white runs
+   between the expression tokens, C10_ws_expression_tokens_partial); both lines are then classified as the same k.  The
+   premise is "the expression text parses" instead of "l1 classifies successfully" (a decomposition of l1 into pieces is
+   not unique a priori).  Proved by direct readings of the regenerated regexes (RegexEval.star_bt: greedy runs, the `(.+)`
+   that backs off to the last colon / closing parenthesis), first-character rejection of the regexes tried earlier by
+   classify, and: an expression never starts with `=` or `:` (otherwise `if =1:` would be an assignment to `if`,
+   `return :` a label). ---- *)
+Theorem C10_ws_statement_gaps_partial : forall n k l1 l2, stmt_spaced2 k l1 l2 ->
+  Lower.classify n l1 = ROk k /\ Lower.classify n l2 = ROk k.
+Proof. exact stmt_spaced2_classify. Qed.
+Print Assumptions C10_ws_statement_gaps_partial.
+
+Theorem C10_ws_statement_gaps_symmetric : forall k l1 l2, stmt_spaced2 k l1 l2 -> stmt_spaced2 k l2 l1.
+Proof. exact stmt_spaced2_sym. Qed.
+Print Assumptions C10_ws_statement_gaps_symmetric.
+
+Theorem C10_ws_assignment_pieces : forall n w1 name w2 T e, white w1 -> white w2 -> ident name = true -> nolf T ->
+  parse_expression T = EOk e -> Lower.classify n (w1 ++ name ++ w2 ++ U "=" ++ T) = ROk (KAssign name e).
+Proof. exact classify_assign_shape. Qed.
+Print Assumptions C10_ws_assignment_pieces.
+
+Theorem C10_ws_if_pieces : forall n w1 w2 T w4 e, white w1 -> white w2 -> w2 <> [] -> white w4 -> nolf T -> hd_ok is_sp T ->
+  parse_expression T = EOk e -> Lower.classify n (w1 ++ U "if" ++ w2 ++ T ++ U ":" ++ w4) = ROk (KIf e).
+Proof. exact classify_if_shape. Qed.
+Print Assumptions C10_ws_if_pieces.
+Theorem C10_ws_elif_pieces : forall n w1 w2 T w4 e, white w1 -> white w2 -> w2 <> [] -> white w4 -> nolf T -> hd_ok is_sp T ->
+  parse_expression T = EOk e -> Lower.classify n (w1 ++ U "elif" ++ w2 ++ T ++ U ":" ++ w4) = ROk (KElif (ROk e)).
+Proof. exact classify_elif_shape. Qed.
+Print Assumptions C10_ws_elif_pieces.
+Theorem C10_ws_while_pieces : forall n w1 w2 T w4 e, white w1 -> white w2 -> w2 <> [] -> white w4 -> nolf T -> hd_ok is_sp T ->
+  parse_expression T = EOk e -> Lower.classify n (w1 ++ U "while" ++ w2 ++ T ++ U ":" ++ w4) = ROk (KWhile e).
+Proof. exact classify_while_shape. Qed.
+Print Assumptions C10_ws_while_pieces.
+
+Theorem C10_ws_return_pieces : forall n w1 w2 T e, white w1 -> white w2 -> w2 <> [] -> nolf w2 -> nolf T -> hd_ok is_sp T ->
+  parse_expression T = EOk e -> Lower.classify n (w1 ++ U "return" ++ w2 ++ T) = ROk (KReturn (Some e)).
+Proof. exact classify_return_shape. Qed.
+Print Assumptions C10_ws_return_pieces.
+Theorem C10_ws_jump_pieces : forall n w1 w2 name w4, white w1 -> white w2 -> w2 <> [] -> ident name = true -> white w4 ->
+  Lower.classify n (w1 ++ U "jump" ++ w2 ++ name ++ w4) = ROk (KJump name None).
+Proof. exact classify_jump_shape. Qed.
+Print Assumptions C10_ws_jump_pieces.
+Theorem C10_ws_jumpif_pieces : forall n w1 g T w2 name w4 e, white w1 -> white g -> nolf T -> white w2 -> w2 <> [] ->
+  ident name = true -> white w4 -> parse_expression T = EOk e ->
+  Lower.classify n (w1 ++ U "jumpif" ++ g ++ U "(" ++ T ++ U ")" ++ w2 ++ name ++ w4) = ROk (KJump name (Some e)).
+Proof. exact classify_jumpif_shape. Qed.
+Print Assumptions C10_ws_jumpif_pieces.
+
+(* the system include: not part of stmt_spaced2 (there is no expression in it), stated by its pieces only *)
+Theorem C10_ws_include_system_pieces : forall n w1 w2 url w4, white w1 -> white w2 -> w2 <> [] -> white w4 ->
+  (forall c, In c url -> c <> 62%N) ->
+  Lower.classify n (w1 ++ U "include" ++ w2 ++ U "<" ++ url ++ U ">" ++ w4) = ROk (KInclude url true).
+Proof. exact classify_include_system_shape. Qed.
+Print Assumptions C10_ws_include_system_pieces.
+
+Theorem C10_expression_never_starts_eq : forall t e, parse_expression (U "=" ++ t) <> EOk e.
+Proof. exact parse_hd_noeq. Qed.
+Print Assumptions C10_expression_never_starts_eq.
+
+(* non-vacuity: a tight and a loose layout of each of the four kinds are related, and classify computes the same kind on both *)
+Example C10_ex_ws_statement_gaps :
+  exists e, parse_expression (U "a<1") = EOk e /\
+    stmt_spaced2 (KAssign (U "x1") e) (U "x1=a<1") (U " x1\000009 =  a <  1 ") /\
+    stmt_spaced2 (KIf e) (U "if a<1:") (U "  if \000009a <  1 : ") /\
+    stmt_spaced2 (KElif (ROk e)) (U "elif a<1:") (U "elif  a <  1 :") /\
+    stmt_spaced2 (KWhile e) (U "while a<1:") (U "\000009while a <  1 :  ") /\
+    stmt_spaced2 (KReturn (Some e)) (U "return a<1") (U "  return \000009a <  1 ") /\
+    stmt_spaced2 (KJump (U "top") None) (U "jump top") (U " jump  top\000009") /\
+    stmt_spaced2 (KJump (U "top") (Some e)) (U "jumpif(a<1) top") (U "  jumpif ( a<1 )\000009top ").
+Proof.
+  destruct stmt_spaced_examples as (e & PE & A & B & C & D). destruct stmt_spaced2_examples as (e' & PE' & R & J & JI).
+  assert (e' = e) by congruence. subst e'. exists e. split; [exact PE|].
+  exact (conj (ss2_base _ _ _ A) (conj (ss2_base _ _ _ B) (conj (ss2_base _ _ _ C) (conj (ss2_base _ _ _ D) (conj R (conj J JI)))))).
+Qed.
+
+Example C10_ex_ws_statement_gaps_computed :
+  Lower.classify 2 (U "x1=a<1") = Lower.classify 2 (U " x1\000009 =  a <  1 ") /\
+  Lower.classify 2 (U "if a<1:") = Lower.classify 2 (U "  if \000009a <  1 : ") /\
+  (exists e, Lower.classify 2 (U "while a<1:") = ROk (KWhile e) /\ Lower.classify 2 (U "\000009while a <  1 :  ") = ROk (KWhile e)) /\
+  Lower.classify 2 (U "jumpif(a<1) top") = Lower.classify 2 (U "  jumpif ( a<1 )\000009top ") /\
+  Lower.classify 2 (U "return a<1") = Lower.classify 2 (U "  return \000009a <  1 ") /\
+  Lower.classify 2 (U "include <a b.bare>") = ROk (KInclude (U "a b.bare") true) /\
+  Lower.classify 2 (U " include \000009 <a b.bare>  ") = ROk (KInclude (U "a b.bare") true) /\
+  (* white space inside a piece is outside the relation: *)
+  Lower.classify 2 (U "if a<1:") <> Lower.classify 2 (U "i f a<1:") /\
+  Lower.classify 2 (U "ifa<1:") <> Lower.classify 2 (U "if a<1:").
+Proof.
+  split; [vm_compute; reflexivity|]. split; [vm_compute; reflexivity|].
+  split; [eexists; split; vm_compute; reflexivity|]. split; [vm_compute; reflexivity|]. split; [vm_compute; reflexivity|].
+  split; [vm_compute; reflexivity|]. split; [vm_compute; reflexivity|].
+  split; vm_compute; discriminate.
+Qed.
+
 (* C10_ws_tokens_partial — the FULL clause "breaking a line at any point where a space is allowed / changing indentation or
    trailing whitespace yields the same statement" needs whitespace-insensitivity of EVERY statement regex and of the
-   expression lexer at EVERY gap.  PROVED: the keyword-only statements and the bare `return` with any indentation and trailing whitespace
-   (C10_ws_keyword_lines, C10_ws_else_gap, C10_ws_return_bare); a leading whitespace run in front of an expression, no fuel premise
-   (C10_ws_expression_leading_partial / _err / _ok, C10_expression_fuel_suffices); indentation of EVERY statement kind
-   (C10_ws_indentation; C10_ws_indentation_partial is the earlier version without function-begin / jump / jumpif / return);
-   round 5: white space BETWEEN the tokens of an expression — all token kinds, string / bracket atoms opaque, result EOk only
-   (C10_ws_expression_tokens_partial, _iff_partial, C10_ws_spaced_symmetric); TRAILING white space of an expression, every
-   text, equality of results (C10_ws_expression_trailing, C10_ws_token_regex_trailing); trailing white space for fifteen
-   statement regexes at the engine level (C10_ws_statement_regex_trailing_partial).
-   NOT proved (oracle only): trailing whitespace and inner gaps of the STATEMENT lines that carry an expression or a name
-   (assignment, function, if/elif/while/for, label, jump/jumpif, return expr, include).  What is missing there is the
-   statement-regex layer only (the expression inside is covered by the two round-5 theorems): (1) the fifteen regexes that end
-   with `X \s*$` after a literal X are done at the ENGINE level (C10_ws_statement_regex_trailing_partial: same captures), but
-   classify tries the assignment regex first and the jump regex (name group directly before `\s*$`) is not of that shape; (2) `(?P<expr>.+)$` (assignment) and `\S.*` (return) absorb the
-   run, so the engine does NOT run in lockstep there (more star iterations on the longer subject), and `x =` / `x =  ` shows
-   that "assignment does not match" is not even preserved for a rejected line — the classify theorem has to go through the
-   kinds; (3) a run containing LF must be excluded (`.` does not read it).  These stay checked metamorphically by the direct
-   oracle (harness/c10_oracle.py) at every inter-token gap of every statement kind.
+   expression lexer at EVERY gap.  PROVED:
+   * indentation of EVERY statement kind (C10_ws_indentation);
+   * round 6: TRAILING white space of EVERY statement kind at the level of classify (C10_ws_trailing; with indentation:
+     C10_ws_padding) — LF-free line and run; only an elif whose condition does not parse is excluded (its kind quotes the
+     line); behind it the engine-level theorems C10_ws_statement_regex_trailing_partial (fifteen regexes `X \s*$`),
+     C10_ws_assignment_regex_trailing, C10_ws_return_regex_trailing, C10_ws_jump_regex_trailing, and
+     C10_ws_classified_not_eq_end / C10_expression_never_ends_eq (`x =` versus `x =  `);
+   * the expression inside a statement: a leading run (C10_ws_expression_leading_partial / _err / _ok, no fuel premise),
+     runs BETWEEN the tokens — all token kinds, string / bracket atoms opaque, result EOk only
+     (C10_ws_expression_tokens_partial, _iff_partial, C10_ws_spaced_symmetric), a TRAILING run, every text, equality of results
+     (C10_ws_expression_trailing, C10_ws_token_regex_trailing);
+   * round 6: the INNER gaps of the statement regexes (`\s*` / `\s+` between keyword, names, `=`, parentheses, colon) for
+     assignment, if, elif, while, return <expr>, jump, jumpif: C10_ws_statement_gaps_partial (relation stmt_spaced2) and the
+     per-kind C10_ws_*_pieces; include <url>: C10_ws_include_system_pieces; from before: the keyword-only statements and the bare `return` with any indentation and
+     trailing whitespace (C10_ws_keyword_lines, C10_ws_return_bare) and `else :` (C10_ws_else_gap).
+   NOT proved (oracle only):
+   * the INNER gaps of function begin (`async`, `function`, name, `(`, the argument list with its commas, `...`, `)`, `:`),
+     for (`for v , i in e :`), label (`name :`), include '...' (quoted form): their indentation and trailing
+     run ARE covered (C10_ws_padding), the gaps between their pieces are not.  What is missing is one direct reading per
+     regex (as in Proofs/C10stmtGaps.v); label additionally needs "the name is not a keyword" (`else :` is KElse, `if  :` is an
+     if with the expression ` `), for has the optional index group, function begin a star over a group, include a
+     backtracking star over an alternation;
+   * C10_ws_statement_gaps_partial has the premise "the expression text parses" (it yields that BOTH layouts classify as
+     the same kind) rather than "the first layout classifies successfully"; rejected lines are not related (their error
+     record quotes the line, so it differs by construction; that the message and the column relative to the first token
+     agree is not stated);
+   * the expression-token theorem relates only EOk results; LF inside a run is excluded in C10_ws_trailing (`.` does not
+     read LF; parse_script never produces such a line: C10_lines_have_no_lf).
+   These stay checked metamorphically by the direct oracle (harness/c10_oracle.py) at every inter-token gap of every
+   statement kind.
    C10_stateless: parse_script / parse_expression of the model are Gallina functions, so determinism and absence
    of state between calls are definitional; on the implementation they are tested by interleaved repeated calls. *)
 
